@@ -24,6 +24,8 @@ var plainClasses = map[string][]string{
 	"astral":       {"😀", "𝔘", "🜲"},
 	"combining":    {"é", "ä"},
 	"nbsp":         {" ", "　"},
+	// characters that have no width and are not white space: they are part of the text wherever they stand
+	"invisible":    {"\ufeff", "\u200b", "\u00ad", "\u200d", "\u2060"},
 	"bare-gt":      {">"},
 	"bare-rbrace":  {"}"},
 	"bare-lt":      {"<"},
